@@ -74,6 +74,11 @@ def _is_small_ascii_int(v) -> bool:
     return isinstance(v, str) and v.isascii() and v.isdigit() and len(v.lstrip("0")) <= 2
 
 
+def _small_ascii_int_value(v: str) -> int:
+    """The number such a string denotes (any number of leading zeros, beyond Python's int() digit limit)."""
+    return int(v.lstrip("0") or "0")
+
+
 class MonthLongStringMiddleware(_MonthInterpolator):
     """Replace month numbers with full month names.
 
@@ -94,7 +99,7 @@ class MonthLongStringMiddleware(_MonthInterpolator):
     def resolve_month_field_val(self, month_field: Field):
         v = month_field.value
         if _is_small_ascii_int(v):
-            v = int(v)
+            v = _small_ascii_int_value(v)
         if isinstance(v, int):
             if v < 1 or v > 12:
                 return (
@@ -138,7 +143,7 @@ class MonthAbbreviationMiddleware(_MonthInterpolator):
     def resolve_month_field_val(self, month_field: Field):
         v = month_field.value
         if _is_small_ascii_int(v):
-            v = int(v)
+            v = _small_ascii_int_value(v)
         if isinstance(v, int):
             if v < 1 or v > 12:
                 # Nothing we can do here
@@ -186,7 +191,7 @@ class MonthIntMiddleware(_MonthInterpolator):
                 )
 
         if _is_small_ascii_int(v):
-            if 1 <= int(v) <= 12:
-                return int(v), "cast month int-string to int"
+            if 1 <= _small_ascii_int_value(v) <= 12:
+                return _small_ascii_int_value(v), "cast month int-string to int"
 
         return month_field.value, "month field unchanged"
